@@ -9,6 +9,7 @@ mod fw;
 mod sortchk;
 mod nanchk;
 mod binschk;
+mod stratchk;
 
 fn main() {
     let args: Vec<String> = std::env::args().collect();
@@ -27,6 +28,7 @@ fn main() {
         "select_many" => sortchk::select_many(&mut cfg, &mut rep),
         "oob" => sortchk::oob(&mut cfg, &mut rep),
         "bins" => binschk::bins(&mut cfg, &mut rep),
+        "strategies" => stratchk::strategies(&mut cfg, &mut rep),
         "nanview" => nanchk::nanview(&mut cfg, &mut rep),
         _ => {
             eprintln!("unknown enumeration {}", name);
